@@ -226,17 +226,29 @@ fn pp_defs<'a>(
     recs_doc.append(defs)
 }
 
-fn pp_actor<'a>(ty: &'a Type, recs: &'a BTreeSet<&'a str>) -> RcDoc<'a> {
+fn pp_actor<'a>(env: &'a TypeEnv, ty: &'a Type, recs: &'a BTreeSet<&'a str>) -> RcDoc<'a> {
     match ty.as_ref() {
         TypeInner::Service(_) => pp_ty(ty),
         TypeInner::Var(id) => {
-            if recs.contains(&*id.clone()) {
+            // the name may be an alias (of an alias ...) of a recursive definition: the constant then holds the IDL.Rec() object
+            let mut cur: &str = id;
+            let mut is_rec = recs.contains(cur);
+            while !is_rec {
+                match env.find_type(cur).map(|t| t.as_ref()) {
+                    Ok(TypeInner::Var(next)) => {
+                        cur = next;
+                        is_rec = recs.contains(cur);
+                    }
+                    _ => break,
+                }
+            }
+            if is_rec {
                 ident(id).append(".getType()")
             } else {
                 ident(id)
             }
         }
-        TypeInner::Class(_, t) => pp_actor(t, recs),
+        TypeInner::Class(_, t) => pp_actor(env, t, recs),
         _ => unreachable!(),
     }
 }
@@ -258,7 +270,7 @@ pub fn compile(env: &TypeEnv, actor: &Option<Type>) -> String {
             } else {
                 &[][..]
             };
-            let actor = kwd("return").append(pp_actor(actor, &recs)).append(";");
+            let actor = kwd("return").append(pp_actor(env, actor, &recs)).append(";");
             let body = defs.append(actor);
             let doc = str("export const idlFactory = ({ IDL }) => ")
                 .append(enclose_space("{", body, "};"));
